@@ -109,4 +109,23 @@ def expiredOnArrival (p : Proto) (timeoutHeader : Bytes) : Bool :=
 def unaryGate (p : Proto) (timeoutHeader : Bytes) : Option Nat :=
   if expiredOnArrival p timeoutHeader then some codeDeadlineExceeded else none
 
+/-! ## the deadline the handler's context gets
+
+  `SetTimeout` derives the handler's context with `context.WithTimeout(request.Context(), d)`.
+  `context.WithTimeout` (Go runtime, trusted) never moves a deadline later: the child's deadline
+  is the earlier of the parent's and `now + d`. Times are nanoseconds on one clock. -/
+
+/-- `context.WithTimeout(parent, d)` at time `now`: the child's deadline -/
+def withTimeoutDeadline (parent : Option Int) (now d : Int) : Int :=
+  match parent with
+  | none => now + d
+  | some p => if p < now + d then p else now + d
+
+/-- the deadline of the context handed to user code: `none` = no deadline. (A rejected timeout
+    never gets that far: `TimeoutParse.invalid` is answered before a context is derived.) -/
+def handlerDeadline (server : Option Int) (now : Int) (parse : TimeoutParse) : Option Int :=
+  match parse with
+  | .ok d => some (withTimeoutDeadline server now d)
+  | _ => server
+
 end ConnectModel
